@@ -116,7 +116,8 @@ def _solve_one(job):
         rec["solver_time"] = ob2.time
     else:
         check_obligation(vc, ob, rlimit=rlimit)
-        rec.update(status=ob.status, backend=ob.backend, time=round(ob.time, 3), model=ob.model)
+        rec.update(status=ob.status, backend=ob.backend, time=round(ob.time, 3), model=ob.model,
+                   reason=getattr(ob, "reason", None))
         rec["solver_time"] = ob.time
         if ob.status == "discharged" and both:
             s = z3.Solver()
@@ -303,6 +304,17 @@ def run_check(prop, args, seed, t0):
     with ctx.Pool(min(args.jobs, max(1, len(sjobs) + len(bjobs)))) as pool:
         bres_async = pool.map_async(_bworker, bjobs, chunksize=1)
         sres = pool.map(_solve_one, sjobs, chunksize=1) if sjobs else []
+        # an `unknown` (resource limit / timeout) is retried once with four times the budget in a fresh
+        # process before it is reported: verdicts must not flip with machine load
+        retry = [(fi, oi, rl * 4, both) for (fi, oi, rl, both), (_f, _o, rec) in zip(sjobs, sres)
+                 if oi >= 0 and (rec.get("status") == "unknown" or (rec.get("kf") or {}).get("status") == "unknown")]
+        if retry:
+            for (fi, oi, _rl, _b) in retry:
+                say("note: retrying %s with a larger budget (first answer: unknown)" % _PREP[fi][3][oi][0].oid)
+            rres = pool.map(_solve_one, retry, chunksize=1)
+            redo = {(fi, oi): rec for (fi, oi, rec) in rres}
+            sres = [(fi, oi, dict(redo[(fi, oi)], retried=True)) if (fi, oi) in redo else (fi, oi, rec)
+                    for (fi, oi, rec) in sres]
         bresults = bres_async.get()
     presults = []
     for fi, (fid, vc, info, items) in enumerate(_PREP):
